@@ -39,7 +39,7 @@ func evoMessage(name, kind string, v2 bool) *Def {
 }
 
 var EvoKinds = []string{"add-int", "add-two", "deprecated-still-sent"}
-var EvoContexts = []string{"top", "struct-field", "array-element", "map-value", "message-field", "union-branch"}
+var EvoContexts = []string{"top", "struct-field", "array-element", "map-value", "message-field", "union-branch", "struct-in-struct", "struct-in-array"}
 
 func evoSchema(kind, context string, v2 bool) *Schema {
 	after := Field{Name: "after", Type: prim("int32")}
@@ -57,6 +57,14 @@ func evoSchema(kind, context string, v2 bool) *Schema {
 		a := after
 		a.Index = 2
 		return &Schema{Defs: []*Def{evoMessage("Evo", kind, v2), {Kind: "message", Name: "Rec", Fields: []Field{{Name: "m", Type: evoT, Index: 1}, a}}}}
+	case "struct-in-struct", "struct-in-array":
+		// the evolved message sits in a struct that is itself a field / an array element
+		inner := &Def{Kind: "struct", Name: "Inner", Fields: []Field{{Name: "m", Type: evoT}, {Name: "a", Type: prim("int32")}}}
+		it := &Type{Kind: "rec", Name: "Inner"}
+		if context == "struct-in-array" {
+			it = arr(it)
+		}
+		return &Schema{Defs: []*Def{evoMessage("Evo", kind, v2), inner, {Kind: "struct", Name: "Rec", Fields: []Field{{Name: "i", Type: it}, after}}}}
 	case "union-branch":
 		u := &Def{Kind: "union", Name: "Un", Branches: []Branch{{1, evoMessage("Evo", kind, v2)}, {2, &Def{Kind: "struct", Name: "Other", Fields: []Field{{Name: "q", Type: prim("int32")}}}}}}
 		return &Schema{Defs: []*Def{u, {Kind: "struct", Name: "Rec", Fields: []Field{{Name: "u", Type: &Type{Kind: "rec", Name: "Un"}}, after}}}}
@@ -110,6 +118,51 @@ func VH_C04() {
 // one byte at a time (1), or one short read anywhere (2)
 func VH_C04B() { v := vNondet_Rec(0); vC04Stream(v, v.MarshalBebop(), 1) }
 func VH_C04C() { v := vNondet_Rec(0); vC04Stream(v, v.MarshalBebop(), 2) }
+
+// VH_C06X: a strict prefix of a newer writer's encoding is an error for the
+// older reader too (C06 with the unknown fields of C04 on the wire).
+func VH_C06X() {
+	v := vNondet_Rec(0)
+	enc := v.MarshalBebop()
+	if len(enc) == 0 {
+		return
+	}
+	k := vstub.Choose(0, len(enc)-1)
+	vstub.SetLoopBudget(8*len(enc) + 64)
+	var w v1.Rec
+	if vstub.Choose(0, 1) == 0 {
+		cut := make([]byte, k)
+		copy(cut, enc[:k])
+		err := w.UnmarshalBebop(cut)
+		vstub.Assert("c06.newer.bytes.err", err != nil)
+	} else {
+		fr := vstub.NewFragReader(enc[:k])
+		fr.Full = true
+		err := w.DecodeBebop(fr)
+		vstub.Assert("c06.newer.stream.err", err != nil)
+	}
+	vstub.Reach("c06x")
+}
+
+// VH_C08X: a reader that fails inside a newer writer's encoding is reported
+// by the older reader (C08 with the unknown fields of C04 on the wire).
+func VH_C08X() {
+	v := vNondet_Rec(0)
+	enc := v.MarshalBebop()
+	if len(enc) == 0 {
+		return
+	}
+	fr := vstub.NewFragReader(enc)
+	fr.Full = true
+	fr.FailAt = vstub.Choose(0, len(enc)-1)
+	fr.Err = vstub.ErrFault
+	fr.EarlyErr = vstub.Choose(0, 1) == 1
+	vstub.SetLoopBudget(8*len(enc) + 64)
+	var w v1.Rec
+	err := w.DecodeBebop(fr)
+	vstub.Assert("c08.newer.r.err", err != nil)
+	vstub.Reach("c08x")
+}
 
 func vC04Stream(v Rec, buf []byte, mode int) {
 	var w2 v1.Rec
